@@ -493,6 +493,10 @@ type c28B struct {
 
 func c28CheckBytes(w *vx.W, x c28B) {
 	const id = "C28/bytes/"
+	ik := initialKeys([]byte{1, 2, 3, 4, 5, 6, 7, 8}, serverSide)
+	var k updatingKeyPair
+	k.r.init(0x1301, []byte("c28 secret"))
+	k.w = k.r
 	try := func(in []byte) {
 		if len(in) > 0 {
 			if _, n := parseDebugFrame(c28Exact(in)); n > len(in) || n == 0 {
@@ -500,7 +504,6 @@ func c28CheckBytes(w *vx.W, x c28B) {
 			}
 		}
 		unmarshalTransportParams(c28Exact(in))
-		ik := initialKeys([]byte{1, 2, 3, 4, 5, 6, 7, 8}, serverSide)
 		if _, n := parseLongHeaderPacket(c28Exact(in), ik.r, 0); n > len(in) {
 			w.Failf(id+"long-header-parser-consumed-beyond-input", "parseLongHeaderPacket(%x) = %d", in, n)
 		}
@@ -510,9 +513,6 @@ func c28CheckBytes(w *vx.W, x c28B) {
 		if n := skipLongHeaderPacket(c28Exact(in)); n > len(in) {
 			w.Failf(id+"skip-long-header-beyond-input", "skipLongHeaderPacket(%x) = %d", in, n)
 		}
-		var k updatingKeyPair
-		k.r.init(0x1301, []byte("c28 secret"))
-		k.w = k.r
 		if _, err := parse1RTTPacket(c28Exact(in), &k, connIDLen, 0); err == nil {
 			w.Failf(id+"short-packet-accepted", "parse1RTTPacket(%x) accepted a packet too short to carry an AEAD tag", in)
 		}
